@@ -72,6 +72,12 @@ func preprocess(file, src string) []stmt {
 			if m == nil {
 				fatalf("%s:%d: cannot parse %q", file, lineNo, l)
 			}
+			if noCodeMacros[m[1]] {
+				fatalf("%s:%d: #define of %s, a funcdata.h pseudo-instruction that asmgen drops", file, lineNo, m[1])
+			}
+			if _, dup := macros[m[1]]; dup {
+				fatalf("%s:%d: redefinition of macro %s", file, lineNo, m[1])
+			}
 			mc := macro{body: strings.TrimSpace(m[4])}
 			if m[2] != "" {
 				for _, p := range strings.Split(m[3], ",") {
@@ -123,6 +129,14 @@ func expand(s string, macros map[string]macro, file string, line, depth int) []s
 		name, isCall = s, true
 	}
 	if !isCall {
+		// The Go assembler expands macros token by token; asmgen only expands a
+		// macro that is a whole statement.  Any other occurrence of a macro name
+		// (register, opcode, symbol or operand position) is rejected.
+		for _, id := range identRe.FindAllString(s, -1) {
+			if _, ok := macros[id]; ok {
+				fatalf("%s:%d: macro %s used inside the statement %q: token-level macro expansion is not supported", file, line, id, s)
+			}
+		}
 		return []stmt{{text: s, file: file, line: line}}
 	}
 	mc := macros[name]
